@@ -15,6 +15,7 @@ extern struct vp_stdio_model {
   long tok[8];
   int cursor, calls;
   int open_streams;
+  int fread_short;
 } vp_io;
 #define VP_PNG_MAXROWS 4
 #define VP_PNG_MAXBYTES 40
@@ -23,6 +24,7 @@ extern struct vp_png_model {
   int packswap, invert;
   int cursor;
   int create_fails;
+  int sig_mismatch;
   unsigned char rows[VP_PNG_MAXROWS][VP_PNG_MAXBYTES];
 } vp_png;
 
@@ -91,14 +93,22 @@ void harness(void) {
   VP_IN(unsigned, in_interlace);
   VP_IN(int, in_fail);
   VP_IN(int, in_cfail);
-  VP_ASSUME((in_depth == 1 || in_depth == 2 || in_depth == 4 || in_depth == 8 || in_depth == 16) && in_channels >= 1 && in_channels <= 4 && in_color <= 6 && in_interlace <= 1);
+  VP_ASSUME((in_depth == 1 || in_depth == 2 || in_depth == 4 || in_depth == 8 || in_depth == 16) && in_color <= 6 && in_interlace <= 1);
+  /* one consistent IHDR: the channel count is a function of the colour type (grey 1, RGB 3, palette 1, grey+alpha 2, RGBA 4) */
+  VP_ASSUME(in_channels == (in_color == 2 ? 3u : (in_color == 4 ? 2u : (in_color == 6 ? 4u : 1u))));
+#ifdef PNG_DEPTH /* header fields enumerated per group (measured: any symbolic branch over the early-exit paths exhausts memory in the SAT encoding) */
+  in_depth = PNG_DEPTH, in_color = PNG_COLOR, in_interlace = PNG_INTERLACE, in_fail = PNG_FOPEN_FAILS, in_cfail = PNG_CREATE_FAILS;
+  in_channels = (in_color == 2 ? 3u : (in_color == 4 ? 2u : (in_color == 6 ? 4u : 1u)));
+  vp_png.sig_mismatch = PNG_SIGBAD, vp_io.fread_short = PNG_FREAD_SHORT;
+#endif
   vp_io.fopen_fails = in_fail != 0;
   vp_png.create_fails = in_cfail != 0;
   vp_png.width = HN, vp_png.height = HM, vp_png.bit_depth = in_depth, vp_png.channels = in_channels, vp_png.color_type = in_color, vp_png.interlace = in_interlace;
   mzd_t *A = mzd_from_png("file.png", 0);
   VP_CANARY();
   VP_ASSERT(vp_io.open_streams == 0, "from_png: the stream is closed on every path");
-  if (in_depth != 1 || in_interlace != 0 || (in_color != 0 && in_color != 3)) VP_ASSERT(A == NULL, "from_png: unsupported bit depth / colour type / interlacing is rejected with NULL");
+  if (in_depth != 1 || in_interlace != 0 || (in_color != 0 && in_color != 3) || in_fail || in_cfail || vp_png.sig_mismatch || vp_io.fread_short)
+    VP_ASSERT(A == NULL, "from_png: unopenable / non-PNG / unsupported bit depth, colour type or interlacing is rejected with NULL");
   if (A != NULL) VP_ASSERT(A->nrows == HM && A->ncols == HN, "from_png: dimensions");
 }
 #endif
